@@ -912,13 +912,23 @@ pub fn worker(args: &WorkerArgs, progs: &[Prog], stats: &mut ShardStats) {
     let thorough = args.tier == "thorough";
     let prop = args.prop.as_str();
     let per_prog: u64 = args.get_u64("runs", if thorough { 3000 } else { 700 });
-    stats.count("programs", progs.len() as u64);
+    let wants_model = matches!(prop, "C17" | "C18");
+    let eligible: Vec<&Prog> = progs.iter().filter(|p| p.model.is_some() == wants_model).collect();
+    stats.count("programs", eligible.len() as u64);
     stats.declare_probe("inconclusive_runs");
-    stats.declare_probe("reference_diverged_or_budget");
-    let total = progs.len() as u64 * per_prog;
+    if wants_model {
+        stats.declare_fault("late_structure");
+        stats.declare_fault("early_structure");
+        stats.declare_probe("toposort_calls_with_morphisms");
+    }
+    if eligible.is_empty() {
+        stats.diagnostics.push("the corpus holds no program this property applies to".into());
+        return;
+    }
+    let total = eligible.len() as u64 * per_prog;
     let mut idx = args.shard;
     while idx < total {
-        let prog = &progs[(idx % progs.len() as u64) as usize];
+        let prog = eligible[(idx % eligible.len() as u64) as usize];
         let seed = derive_seed(args.seed, 200 + prop.trim_start_matches('C').parse::<u64>().unwrap_or(0), idx);
         let mut rng = Rng::new(seed);
         stats.run_seed(seed);
@@ -973,6 +983,15 @@ pub fn worker(args: &WorkerArgs, progs: &[Prog], stats: &mut ShardStats) {
                 let new_ops: Vec<Op> = gen_history(prog, &mut rng, &knobs, false);
                 vec![c16_case(prog, &old_ops, &new_ops)]
             }
+            "C17" | "C18" => {
+                let ops = crate::c17::gen_history(prog, &mut rng);
+                if crate::c17::late_structure(prog, &ops) {
+                    stats.fault("late_structure");
+                } else {
+                    stats.fault("early_structure");
+                }
+                vec![crate::c17::case(prop, prog, &ops)]
+            }
             other => {
                 stats.diagnostics.push(format!("modelsim does not serve {other} yet"));
                 return;
@@ -997,11 +1016,16 @@ pub fn worker(args: &WorkerArgs, progs: &[Prog], stats: &mut ShardStats) {
                     stats.fault_n("cancel_at_poll", info.closes_cancelled);
                     stats.fault_n("equate_between_closes", info.merges_between_closes);
                     stats.count("checks", info.checks);
+                    if wants_model {
+                        stats.probe_n("toposort_calls_with_morphisms", info.enum_elements_checked);
+                    }
                     let nontrivial = match prop {
                         "C02" => info.max_polls_in_close >= 3,
                         "C03" => info.checks >= 1 && info.polls >= 4,
                         "C07" => info.max_polls_in_close >= 3,
                         "C16" => info.polls >= 1,
+                        "C17" => info.checks >= 3,
+                        "C18" => info.checks >= 1,
                         _ => true,
                     };
                     if nontrivial {
